@@ -196,7 +196,7 @@ public:
       {
         auto& level0 = _wheels[0];
         auto& bucket = level0.buckets[level0.currentTick & _tickMask];
-        collectFromBucket(bucket, toFire);
+        collectFromBucket(bucket, now, toFire);
         level0.currentTick++;
 
         if ((level0.currentTick & _tickMask) == 0)
@@ -533,17 +533,37 @@ private:
   /// skip entries that were placed correctly. Entries whose deadline
   /// is slightly in the future (placed between ticks) still fire —
   /// this matches the tick-granularity contract.
-  void collectFromBucket(Bucket& bucket,
+  void collectFromBucket(Bucket& bucket, TimePoint now,
                          std::vector<std::pair<TimerId, Callback>>& toFire)
   {
+    // Detach the whole list first: entries that are not due yet are re-inserted
+    // below and may land in this very bucket again.
     auto* entry = bucket.head;
+    bucket.head = nullptr;
+    bucket.tail = nullptr;
     while (entry)
     {
       auto* next = entry->next;
-      bucket.unlink(entry);
-      _entryMap.erase(entry->id);
-      toFire.emplace_back(entry->id, std::move(entry->callback));
-      freeEntry(entry);
+      entry->prev = nullptr;
+      entry->next = nullptr;
+
+      // A bucket position alone does not prove the entry is due: during drift
+      // catch-up several buckets are processed with one timestamp, and on the
+      // top level a delay beyond the wheel's range wraps around. Fire only
+      // entries whose deadline is at most one tick away; re-insert the others
+      // by their remaining delay (as cascadeDown does).
+      if (entry->deadline <= now + _tickDuration)
+      {
+        _entryMap.erase(entry->id);
+        toFire.emplace_back(entry->id, std::move(entry->callback));
+        freeEntry(entry);
+      }
+      else
+      {
+        auto remaining = std::chrono::duration_cast<std::chrono::milliseconds>(
+          entry->deadline - now);
+        insertEntry(entry, remaining);
+      }
       entry = next;
     }
   }
